@@ -480,11 +480,19 @@ fn gen_overdue_reuse(rng: &mut Rng) -> ServerScn {
     let d1 = d0 + rng.range(0, 2) as i64;
     for d in [d0, d1] {
         script.push(PeerAct { delay_ms: 0, kind: PeerKind::Req { id: IdRef::Fresh, deadline: Dl::Ms(d), sampled: false, untraced: false } });
-        handlers.push(HandlerPlan { steps: vec![if rng.chance(500) { HStep::Never } else { HStep::SleepMs(rng.range(15, 30)) }], err: false, run: RunMode::Execute });
+        // never / well after the step / inside the step: the last one finishes overdue, and its
+        // response is in the buffer when the channel next runs
+        let step = match rng.below(3) {
+            0 => HStep::Never,
+            1 => HStep::SleepMs(rng.range(15, 30)),
+            _ => HStep::SleepMs(rng.range(7, 13)),
+        };
+        handlers.push(HandlerPlan { steps: vec![step], err: false, run: RunMode::Execute });
     }
     let victim = rng.below(2) as usize;
     // delivered while the clock is being stepped (it lands at the end of the step)
-    script.push(PeerAct { delay_ms: rng.range(4, 9), kind: PeerKind::Req { id: IdRef::DupOf(victim), deadline: Dl::Ms(1000), sampled: false, untraced: false } });
+    let third = if rng.chance(500) { IdRef::DupOf(victim) } else { IdRef::Fresh };
+    script.push(PeerAct { delay_ms: rng.range(4, 9), kind: PeerKind::Req { id: third, deadline: Dl::Ms(1000), sampled: false, untraced: false } });
     handlers.push(HandlerPlan { steps: vec![HStep::SleepMs(rng.range(1, 5))], err: false, run: RunMode::Execute });
     ServerScn {
         resp_buf: 100,
@@ -1773,6 +1781,12 @@ pub fn check(scn: &ServerScn, log: &[Ev], sim: &Sim, node: u8) -> Vec<Violation>
                     }
                 }
                 v.push(viol("C06", "response-after-expiry", &tags, format!("tag {} (id {}): deadline {}, response transmitted at t={}", i.tag, i.id, i.deadline, rsp.1)));
+                // C08's clause: a response goes out only if the handler finished before the
+                // request expired
+                let finished_at = i.finish.and_then(|f| m.times.get(f as usize).copied());
+                if finished_at.map(|ft| ft >= i.deadline.max(i.read_t).saturating_add(2)).unwrap_or(false) {
+                    v.push(viol("C08", "response-after-expiry", &[], format!("tag {} (id {}): deadline {}, handler finished at t={}, its response was transmitted at t={}", i.tag, i.id, i.deadline, finished_at.unwrap(), rsp.1)));
+                }
             }
             if let Some((g, _, false)) = i.hdrop {
                 if g < rsp.0 {
@@ -2124,6 +2138,24 @@ pub fn check(scn: &ServerScn, log: &[Ev], sim: &Sim, node: u8) -> Vec<Violation>
         if let EvKind::Note { what: "inner_default_deadline", a, b } = &e.kind {
             if *a != 10_000 + *b && *a != 10_000 {
                 v.push(viol("C07", "default", &["json", "inner-server"], format!("a request without a deadline, decoded by a server driven from inside a handler, got a deadline {a} ms away (expected 10000)")));
+            }
+        }
+    }
+
+    // ---- C18: the context a request is handed out with, whoever takes it (the request stream or
+    // an application reading the bare channel by hand): the transmitted trace, a span of its own
+    for e in log {
+        if let EvKind::Yielded { node: n, tag, trace, span, sampled, .. } = &e.kind {
+            if *n != node {
+                continue;
+            }
+            if let Some(i) = m.incs.iter().find(|i| i.tag == *tag) {
+                if (scn.subscriber != 2 || i.trace != 0) && (*trace != i.trace || *sampled != i.sampled) {
+                    v.push(viol("C18", "handler-mismatch", &["yielded"], format!("tag {}: handed out with trace {trace:x}/{sampled}, request carried {:x}/{}", i.tag, i.trace, i.sampled)));
+                }
+                if (scn.subscriber != 2 || i.trace != 0) && (*span == i.span || *span == 0) {
+                    v.push(viol("C18", "span-not-fresh", &["server", "yielded"], format!("tag {}: handed out with span {span:x}, the transmitted span", i.tag)));
+                }
             }
         }
     }
